@@ -13,6 +13,10 @@ import UberjobModel.Model.Engine
   reachable state of the coarse model (`Model/Engine.lean`), so every safety theorem proved there holds here: the
   "lock-protected region = one step" reduction is a theorem, not a paper argument, for this lock.
 
+  The block `with failure_lock: error_count += 1; if not first_node_error: …; if … error_count > max_errors: stop = True`
+  (`Engine.Label.finFail`) is split in the same way: acquire, count, set the first error, decide `stop` (the only variable of
+  the block that other threads read without the lock — the step at which the block takes effect), release.
+
   Core Lean only.
 -/
 namespace Uberjob.EngineFine
@@ -37,12 +41,30 @@ structure Region where
   stage : Stage
 deriving DecidableEq, Repr
 
+/-- Where the holder of `failure_lock` is inside its block. -/
+inductive FStage where
+  | acquired
+  | counted                  -- `error_count += 1` done
+  | firstSet                 -- `if not first_node_error: first_node_error = …` done
+  | done                     -- `if … : stop = True` done; the lock is still held
+deriving DecidableEq, Repr
+
+/-- The holder of `failure_lock`: worker `w`, whose call of node `x` raised; `oldFirst` is `first_node_error` as it was when
+    the lock was taken. -/
+structure FRegion where
+  w        : Nat
+  x        : Nat
+  stage    : FStage
+  oldFirst : Option Nat
+deriving DecidableEq, Repr
+
 /-- `c` holds the ACTUAL values of every variable (`c.rem` is `remaining_pred_count_mapping` as it is in memory); the
     control state `c.ws[w]` of the lock holder stays `releasing x todo` until its `queue.put` step, and is
     `releasing x (todo.erase y)` from then on. -/
 structure St2 where
-  c    : St
-  lock : Option Region
+  c     : St
+  lock  : Option Region
+  flock : Option FRegion
 
 inductive Label2 where
   | base (l : Label)      -- any step of the coarse model, except the one-step handling of a multi-parent successor
@@ -51,6 +73,11 @@ inductive Label2 where
   | test (w : Nat)
   | put (w : Nat)
   | unlock (w : Nat)
+  | facquire (w : Nat)
+  | fcount (w : Nat)
+  | ffirst (w : Nat)
+  | fstop (w : Nat)
+  | funlock (w : Nat)
 deriving DecidableEq, Repr
 
 def labelWorker : Label → Option Nat
@@ -63,9 +90,12 @@ def labelWorker : Label → Option Nat
   | _ => none
 
 def holds (s : St2) (w : Nat) : Bool :=
-  match s.lock with
-  | some r => r.w == w
-  | none => false
+  (match s.lock with
+   | some r => r.w == w
+   | none => false) ||
+  (match s.flock with
+   | some r => r.w == w
+   | none => false)
 
 /-- a thread inside the block does nothing else until it has left it -/
 def blocked (s : St2) (l : Label) : Bool :=
@@ -73,7 +103,7 @@ def blocked (s : St2) (l : Label) : Bool :=
   | some w => holds s w
   | none => false
 
-def init2 (g : Graph) : St2 := ⟨init g, none⟩
+def init2 (g : Graph) : St2 := ⟨init g, none, none⟩
 
 def step2? (g : Graph) (cfg : Cfg) (s : St2) : Label2 → Option St2
   | .base l =>
@@ -83,6 +113,7 @@ def step2? (g : Graph) (cfg : Cfg) (s : St2) : Label2 → Option St2
       | .release _ y =>
         -- only single-parent successors are handled without the lock
         if classify (g.predCount y) == Kind.single then (step? g cfg s.c l).map (fun c' => { s with c := c' }) else none
+      | .finFail _ => none      -- the failure bookkeeping always goes through the `failure_lock` block
       | _ => (step? g cfg s.c l).map (fun c' => { s with c := c' })
   | .acquire w y =>
     match s.lock, s.c.ws[w]? with
@@ -94,8 +125,8 @@ def step2? (g : Graph) (cfg : Cfg) (s : St2) : Label2 → Option St2
     match s.lock with
     | some r =>
       if r.w = w ∧ r.stage = .acquired then
-        some { c := { s.c with rem := fun z => if z = r.y then s.c.rem r.y - 1 else s.c.rem z }
-               lock := some { r with stage := .decremented } }
+        some { s with c := { s.c with rem := fun z => if z = r.y then s.c.rem r.y - 1 else s.c.rem z }
+                      lock := some { r with stage := .decremented } }
       else none
     | none => none
   | .test w =>
@@ -110,18 +141,52 @@ def step2? (g : Graph) (cfg : Cfg) (s : St2) : Label2 → Option St2
       match r.stage with
       | .tested b =>
         if r.w = w then
-          some { c := { setW s.c w (.releasing r.x (r.todo.erase r.y)) with
-                          rel := s.c.rel ++ [(r.x, r.y)]
-                          queue := if b then s.c.queue ++ [.node r.y] else s.c.queue
-                          unfinished := if b then s.c.unfinished + 1 else s.c.unfinished
-                          enq := if b then s.c.enq ++ [r.y] else s.c.enq }
-                 lock := some { r with stage := .done } }
+          some { s with c := { setW s.c w (.releasing r.x (r.todo.erase r.y)) with
+                                 rel := s.c.rel ++ [(r.x, r.y)]
+                                 queue := if b then s.c.queue ++ [.node r.y] else s.c.queue
+                                 unfinished := if b then s.c.unfinished + 1 else s.c.unfinished
+                                 enq := if b then s.c.enq ++ [r.y] else s.c.enq }
+                        lock := some { r with stage := .done } }
         else none
       | _ => none
     | none => none
   | .unlock w =>
     match s.lock with
     | some r => if r.w = w ∧ r.stage = .done then some { s with lock := none } else none
+    | none => none
+  | .facquire w =>
+    match s.flock, s.c.ws[w]? with
+    | none, some (.running x) => some { s with flock := some ⟨w, x, .acquired, s.c.first⟩ }
+    | _, _ => none
+  | .fcount w =>
+    match s.flock with
+    | some r =>
+      if r.w = w ∧ r.stage = .acquired then
+        some { s with c := { s.c with errs := s.c.errs + 1 }, flock := some { r with stage := .counted } }
+      else none
+    | none => none
+  | .ffirst w =>
+    match s.flock with
+    | some r =>
+      if r.w = w ∧ r.stage = .counted then
+        some { s with c := { s.c with first := match s.c.first with | some f => some f | none => some r.x }
+                      flock := some { r with stage := .firstSet } }
+      else none
+    | none => none
+  | .fstop w =>
+    match s.flock with
+    | some r =>
+      if r.w = w ∧ r.stage = .firstSet then
+        some { s with c := { setW s.c w (.finishing false) with
+                               stop := s.c.stop || Uberjob.Gen.Engine.stopCond s.c.errs cfg.maxErr
+                               failed := s.c.failed ++ [r.x], retired := s.c.retired ++ [r.x]
+                               log := s.c.log ++ [.fail r.x] }
+                      flock := some { r with stage := .done } }
+      else none
+    | none => none
+  | .funlock w =>
+    match s.flock with
+    | some r => if r.w = w ∧ r.stage = .done then some { s with flock := none } else none
     | none => none
 
 inductive Reach2 (g : Graph) (cfg : Cfg) : St2 → Prop where
@@ -149,13 +214,26 @@ def bump (rem : Nat → Nat) (y : Nat) : Nat → Nat := fun z => if z = y then r
 
 /-- The coarse state a fine state stands for: the block takes effect, as a whole, at its `queue.put` step; before that
     step the decrement (if already done) is not yet visible. -/
-def abs (s : St2) : St :=
-  match s.lock with
+def absR (lock : Option Region) (c : St) : St :=
+  match lock with
   | some r =>
     match r.stage with
-    | .decremented => { s.c with rem := bump s.c.rem r.y }
-    | .tested _ => { s.c with rem := bump s.c.rem r.y }
-    | _ => s.c
-  | none => s.c
+    | .decremented => { c with rem := bump c.rem r.y }
+    | .tested _ => { c with rem := bump c.rem r.y }
+    | _ => c
+  | none => c
+
+/-- ... and the failure block takes effect at its `stop` step: before it, the count and the first error it has already
+    written are not yet visible. -/
+def absF (flock : Option FRegion) (c : St) : St :=
+  match flock with
+  | some r =>
+    match r.stage with
+    | .counted => { c with errs := c.errs - 1 }
+    | .firstSet => { c with errs := c.errs - 1, first := r.oldFirst }
+    | _ => c
+  | none => c
+
+def abs (s : St2) : St := absF s.flock (absR s.lock s.c)
 
 end Uberjob.EngineFine
